@@ -42,13 +42,25 @@ func (events *analyticsEvents) Split() (*analyticsEvents, *analyticsEvents) {
 	eventHeap1 := make(analyticsEventHeap, len(eventHeap)/2)
 	eventHeap2 := make(analyticsEventHeap, len(eventHeap)-len(eventHeap1))
 
+	// The events seen (which exceed the events saved when the reservoir
+	// overflowed) are apportioned between the two halves, so that the
+	// events_seen values of the two payloads add up to the number offered.
+	numSeen1 := events.numSeen / 2
+	if numSeen1 < len(eventHeap1) {
+		numSeen1 = len(eventHeap1)
+	}
+	numSeen2 := events.numSeen - numSeen1
+	if numSeen2 < len(eventHeap2) {
+		numSeen2 = len(eventHeap2)
+	}
+
 	e1 := &analyticsEvents{
-		numSeen:        len(eventHeap1),
+		numSeen:        numSeen1,
 		events:         &eventHeap1,
 		failedHarvests: events.failedHarvests,
 	}
 	e2 := &analyticsEvents{
-		numSeen:        len(eventHeap2),
+		numSeen:        numSeen2,
 		events:         &eventHeap2,
 		failedHarvests: events.failedHarvests,
 	}
